@@ -494,3 +494,130 @@ def unified_options(rng, allow_raw_headers=True):
         o['--line-fill-method'] = rng.choice(['ansi', 'spaces'])
         cls.append('fill')
     return o, meta
+
+
+# ---------------------------------------------------------------- option sets (any mode, hostile)
+
+LN_FORMATS = ['{nm:^4}⋮', '{np:^4}│', '{nm}', '{np:>1}', '[{nm:<6}]', '{nm:^4}{np:^4}{nm}{np}{nm:>9}', '', 'x',
+              '{nm:^40}|', '{np:>3}┊', '{nm:~^5}']
+WORD_REGEXES = [r'\w+', '.', r'\S+', '[a-z]+', r'\s+', '.*', r'[^ ]', r'\b', 'a|b', '(x)?']
+STYLE_STRINGS = ['red', 'bold', 'normal', 'syntax', 'raw', 'omit', 'auto', 'blue ul', 'syntax bold "#102030"',
+                 'reverse', 'italic dim strike', '255 0', 'hidden', 'blink', 'brightred brightblue', 'normal auto',
+                 'syntax auto', 'purple', 'white black ol', 'box', 'ul ol red']
+
+
+def hostile_options(rng):
+    """Random option set from every presentation mode with small/odd numeric values."""
+    o = {'--paging': 'never'}
+    cls = []
+
+    def flag(name, p):
+        if rng.random() < p:
+            o[name] = True
+            cls.append(name.lstrip('-'))
+    flag('--side-by-side', 0.35)
+    flag('--line-numbers', 0.35)
+    flag('--navigate', 0.15)
+    flag('--hyperlinks', 0.2)
+    flag('--color-only', 0.12)
+    flag('--raw', 0.06)
+    flag('--diff-highlight', 0.08)
+    flag('--diff-so-fancy', 0.08)
+    flag('--keep-plus-minus-markers', 0.2)
+    flag('--relative-paths', 0.1)
+    if rng.random() < 0.6:
+        o['--width'] = rng.choice([0, 1, 2, 3, 4, 5, 6, 7, 9, 11, 13, 20, 21, 40, 41, 79, 80, 81, 200, 501, 'variable', '-1', '-3'])
+        cls.append('width')
+    if rng.random() < 0.4:
+        o['--wrap-max-lines'] = rng.choice([0, 1, 2, 3, 10, 'unlimited', '∞'])
+        cls.append('wrap-max')
+    if rng.random() < 0.3:
+        o['--tabs'] = rng.choice([0, 1, 2, 8, 50])
+        cls.append('tabs')
+    if rng.random() < 0.3:
+        o['--line-buffer-size'] = rng.choice([0, 1, 2, 32])
+        cls.append('bufsize')
+    if rng.random() < 0.3:
+        o['--max-line-length'] = rng.choice([0, 1, 2, 5, 20, 100])
+        cls.append('maxlen')
+    if rng.random() < 0.2:
+        o['--max-syntax-highlighting-length'] = rng.choice([0, 1, 5, 100])
+        cls.append('maxsyn')
+    if rng.random() < 0.3:
+        o['--max-line-distance'] = rng.choice(['0', '0.1', '0.5', '1', '1.5', '100'])
+        cls.append('dist')
+    if rng.random() < 0.25:
+        o['--line-numbers-left-format'] = rng.choice(LN_FORMATS)
+        o['--line-numbers-right-format'] = rng.choice(LN_FORMATS)
+        cls.append('lnfmt')
+    if rng.random() < 0.25:
+        o['--word-diff-regex'] = rng.choice(WORD_REGEXES)
+        cls.append('wordregex')
+    if rng.random() < 0.3:
+        o['--syntax-theme'] = rng.choice(THEMES_DARK + THEMES_LIGHT + ['none'])
+        cls.append('theme')
+    if rng.random() < 0.15:
+        o['--line-fill-method'] = rng.choice(['ansi', 'spaces'])
+        cls.append('fill')
+    if rng.random() < 0.15:
+        o['--true-color'] = rng.choice(['always', 'never'])
+    if rng.random() < 0.1:
+        o['--inspect-raw-lines'] = 'false'
+        cls.append('noinspect')
+    if rng.random() < 0.15:
+        o['--wrap-left-symbol'] = rng.choice(['↵', '>', '日', ''])
+        o['--wrap-right-symbol'] = rng.choice(['↴', '<', ''])
+        o['--wrap-right-prefix-symbol'] = rng.choice(['…', '.', ''])
+        o['--wrap-right-percent'] = rng.choice(['0', '37', '100', '50.5'])
+        cls.append('wrapsym')
+    if rng.random() < 0.1:
+        o['--grep-output-type'] = rng.choice(['ripgrep', 'classic'])
+        cls.append('greptype')
+    if rng.random() < 0.1:
+        o['--grep-separator-symbol'] = rng.choice([':', 'keep', '|', ''])
+    if rng.random() < 0.1:
+        o['--hunk-header-style'] = rng.choice(['omit', 'raw', 'file line-number syntax', 'file', 'line-number', 'syntax bold'])
+        cls.append('hhstyle')
+    if rng.random() < 0.1:
+        o['--file-style'] = rng.choice(['omit', 'raw', 'red', 'syntax'])
+        cls.append('filestyle')
+    if rng.random() < 0.1:
+        o['--commit-style'] = rng.choice(['omit', 'raw', 'red', 'syntax bold'])
+        cls.append('commitstyle')
+    if rng.random() < 0.2:
+        for name in rng.sample(['--minus-style', '--plus-style', '--zero-style', '--minus-emph-style',
+                                '--plus-emph-style', '--whitespace-error-style', '--inline-hint-style',
+                                '--blame-code-style', '--grep-match-word-style', '--grep-match-line-style',
+                                '--grep-context-line-style', '--grep-file-style', '--grep-line-number-style',
+                                '--hunk-header-file-style', '--line-numbers-minus-style'], 3):
+            o[name] = rng.choice(STYLE_STRINGS)
+        cls.append('styles')
+    if rng.random() < 0.1:
+        dec = rng.choice(['box', 'ul', 'ol', 'ul ol', 'box ul', 'none', 'bold box', ''])
+        o['--file-decoration-style'] = dec
+        o['--hunk-header-decoration-style'] = rng.choice(['box', 'ul', 'ol', 'none', 'box ul', ''])
+        o['--commit-decoration-style'] = rng.choice(['box', 'ul', 'ol', 'none', 'box ul', ''])
+        cls.append('decor')
+    if rng.random() < 0.08:
+        o['--blame-format'] = rng.choice(['{commit}', '{timestamp:<15} {author:<15.14} {commit:<8}', '{author:>3.1}',
+                                          '{commit:^1}{commit}{author}', ''])
+        o['--blame-separator-format'] = rng.choice(['│{n:^4}│', 'none', '{n:^4_block}', '{n:>2_every-3}', '{n}', ''])
+        cls.append('blamefmt')
+    if rng.random() < 0.08:
+        o['--blame-timestamp-output-format'] = rng.choice(['%Y-%m-%d', '%s', '%H:%M %z', ''])
+    if rng.random() < 0.08:
+        o['--blame-palette'] = rng.choice(['red', 'red blue', '#010101 #020202 #030303', '1 2 3 4 5 6'])
+        cls.append('blamepal')
+    if rng.random() < 0.08:
+        o['--file-transformation'] = rng.choice(['s/a/b/', 's,src/,,', 's/./XX/g'])
+    if rng.random() < 0.05:
+        o['--default-language'] = rng.choice(['rs', 'py', 'nonexistent', ''])
+    if rng.random() < 0.05:
+        o['--map-styles'] = rng.choice(['bold purple => syntax magenta, bold cyan => syntax blue',
+                                        'red => blue', '31 => bold'])
+        cls.append('mapstyles')
+    if rng.random() < 0.05:
+        o['--hyperlinks-file-link-format'] = rng.choice(['file://{path}', 'x://{path}:{line}', '{host}', ''])
+    if rng.random() < 0.3:
+        o['--dark' if rng.random() < 0.5 else '--light'] = True
+    return o, cls
